@@ -69,7 +69,11 @@ pub static mut KANI_DIV_SCALE: u32 = 6;
 /// One-slot log of the last quotient mantissa produced by `/` (rule 9 of
 /// DESIGN.md 6.1: oracles are aligned with the division model).
 #[cfg(kani)]
-pub static mut Q_LOG: [(i64, u32); 4] = [(0, 0); 4];
+pub static mut Q_LOG: [(i64, u32); 6] = [(0, 0); 6];
+/// Operands of the k-th division, so that an oracle reading a logged quotient
+/// can also assert *which* division it was.
+#[cfg(kani)]
+pub static mut OPS_LOG: [(i64, u32, i64, u32); 6] = [(0, 0, 0, 0); 6];
 #[cfg(kani)]
 pub static mut DIV_COUNT: usize = 0;
 
@@ -81,10 +85,27 @@ pub fn kani_logged_quotient(k: usize) -> Decimal {
             0 => Q_LOG[0],
             1 => Q_LOG[1],
             2 => Q_LOG[2],
-            _ => Q_LOG[3],
+            3 => Q_LOG[3],
+            4 => Q_LOG[4],
+            _ => Q_LOG[5],
         }
     };
     Decimal { m, scale: s, neg_zero: 0 }
+}
+/// (dividend, divisor) of the k-th division.
+#[cfg(kani)]
+pub fn kani_logged_operands(k: usize) -> (Decimal, Decimal) {
+    let (am, asc, bm, bsc) = unsafe {
+        match k {
+            0 => OPS_LOG[0],
+            1 => OPS_LOG[1],
+            2 => OPS_LOG[2],
+            3 => OPS_LOG[3],
+            4 => OPS_LOG[4],
+            _ => OPS_LOG[5],
+        }
+    };
+    (Decimal { m: am, scale: asc, neg_zero: 0 }, Decimal { m: bm, scale: bsc, neg_zero: 0 })
 }
 #[cfg(kani)]
 pub fn kani_div_count() -> usize {
@@ -584,11 +605,14 @@ fn div_impl(a: &Decimal, b: &Decimal) -> Decimal {
         let qm = if neg { -q } else { q };
         unsafe {
             // concrete counter, constant subscripts: no array theory
+            let ops = (a.m, a.scale, b.m, b.scale);
             match DIV_COUNT {
-                0 => Q_LOG[0] = (qm, p),
-                1 => Q_LOG[1] = (qm, p),
-                2 => Q_LOG[2] = (qm, p),
-                3 => Q_LOG[3] = (qm, p),
+                0 => { Q_LOG[0] = (qm, p); OPS_LOG[0] = ops; }
+                1 => { Q_LOG[1] = (qm, p); OPS_LOG[1] = ops; }
+                2 => { Q_LOG[2] = (qm, p); OPS_LOG[2] = ops; }
+                3 => { Q_LOG[3] = (qm, p); OPS_LOG[3] = ops; }
+                4 => { Q_LOG[4] = (qm, p); OPS_LOG[4] = ops; }
+                5 => { Q_LOG[5] = (qm, p); OPS_LOG[5] = ops; }
                 _ => {}
             }
             DIV_COUNT += 1;
